@@ -352,6 +352,17 @@ def _fresh_container(e: ast.AST) -> bool:
     return False
 
 
+_types_cache = {}
+
+
+def _types(prog: Program):
+    from ..types import Types
+    k = id(prog)
+    if k not in _types_cache:
+        _types_cache[k] = Types(prog)
+    return _types_cache[k]
+
+
 def copy_rules(rep: Report, prog: Program, cm: ClassModel) -> None:
     rule = 'C16-D3 copy'
     n = 0
@@ -388,6 +399,18 @@ def copy_rules(rep: Report, prog: Program, cm: ClassModel) -> None:
                 ok = not alias and (_fresh_container(val) or isinstance(val, ast.Name))
                 rep.ob(rule + ' independence', f.fq(), norm(a), f.loc(a), ok,
                        'bound to a fresh container' if ok else f"the copy's `{attr}` is the very container of the original (aliasing): mutating one changes the other")
+                # a table whose values are mutable objects (domains, factors with their weight tensors) must be copied deeply
+                from ..types import Types
+                tk, teimm, tknown = _types(prog).attr_kind(attr, cname)
+                if ok and tknown and tk in ('dict', 'list') and not teimm and attr not in ('_rules',):
+                    deep = (isinstance(val, ast.Call) and callee_last(val) == 'deepcopy') or \
+                        (isinstance(val, (ast.DictComp, ast.ListComp)) and isinstance(val.value if isinstance(val, ast.DictComp) else val.elt, ast.Call)
+                         and callee_last(val.value if isinstance(val, ast.DictComp) else val.elt) in ('deepcopy', 'clone')
+                         or isinstance(val, (ast.DictComp, ast.ListComp)) and isinstance(val.value if isinstance(val, ast.DictComp) else val.elt, ast.Call)
+                         and isinstance((val.value if isinstance(val, ast.DictComp) else val.elt).func, ast.Attribute) and (val.value if isinstance(val, ast.DictComp) else val.elt).func.attr == 'copy'
+                         and not (val.value if isinstance(val, ast.DictComp) else val.elt).args and False)
+                    rep.ob(rule + ' independence', f.fq(), f"{norm(a)[:80]} [values are mutable objects]", f.loc(a), deep,
+                           'the values are copied deeply' if deep else f"`{attr}` maps names to mutable objects (with their weight tensors / value lists); a shallow copy of the values leaves them shared: an in-place update through the copy changes the original")
         if ci.is_dataclass and isinstance(ret, ast.Call):
             fields = list(attrs)
             for fld, arg in zip(fields, ret.args):
